@@ -677,7 +677,7 @@ func run(c *lib.Ctx) {
 	}
 	rec(nil, 0)
 	rng := c.Rng("c16")
-	for i := 0; i < c.Pick(300, 6000); i++ {
+	for i := 0; i < c.Pick(300, 2000); i++ {
 		n := L + 1 + rng.Intn(2)
 		var h []string
 		for k := 0; k < n; k++ {
